@@ -108,11 +108,19 @@ func H_C06_Crash(v *verifrt.T) {
 	if v.Param("DUP", 0) == 1 {
 		dup = v.Choose("retransmission", 3)
 	}
+	// what the sender has been told by a status poll before the crash: a
+	// positive answer makes it mark the file done (and delete it), so it will
+	// not help any more after the crash
+	told := sts.ConfirmNone
+	lateDup := dup >= 1 && v.Choose("retransmission-arrives-after-the-poll", 2) == 1
 	crashed := v.RunUntilCrash(k, func() {
 		mkEnv()
 		e.sendPart("a", prev, h1, size, 0, m, "v1")
 		e.sendPart("a", prev, h1, size, m, size, "v1")
 		v.Quiesce()
+		if lateDup {
+			told = e.s.GetFileStatus("a", v.Now())
+		}
 		if dup >= 1 {
 			// lost answer: the sender transmits the file once more (and may
 			// itself stop after the first part)
@@ -123,6 +131,7 @@ func H_C06_Crash(v *verifrt.T) {
 			v.Quiesce()
 		}
 	})
+	told = v.Observed("sender-was-told", told)
 	reportedBefore := sts.ConfirmNone
 	if !crashed {
 		v.Reach("no-crash")
@@ -169,8 +178,13 @@ func H_C06_Crash(v *verifrt.T) {
 		os.Remove(filepath.Join(e.final, "a"))
 		v.Reach("delivered-before-resumption")
 	}
-	// the sender resumes: ask, re-send what is not held, poll
+	// the sender resumes: ask, re-send what is not held, poll — unless it had
+	// been told before the crash that the file is validated
 	parts := [][2]int64{{0, m}, {m, size}}
+	if told == sts.ConfirmPassed || told == sts.ConfirmWaiting {
+		parts = nil
+		v.Reach("sender-already-satisfied")
+	}
 	for _, p := range parts {
 		q := []sts.Binned{&vBinned{name: "a", prev: prev, hash: h1, size: size, beg: p[0], end: p[1], t: v.Now().Add(-20 * 24 * 3600e9)}}
 		if e.s.Received(q) == 0 {
